@@ -37,6 +37,7 @@ import (
 	"net"
 	"os"
 	"strings"
+	"syscall"
 )
 
 const (
@@ -181,6 +182,16 @@ func ElideError(err error) string {
 	case *net.UnknownNetworkError:
 		return "unknown network " + elidedAddr
 	case *net.OpError:
+		// The wrapped error is frequently yet another address bearing
+		// error (eg: a *net.DNSError from a failed lookup), so elide it
+		// as well instead of printing it verbatim.  Errnos never contain
+		// addresses and are more useful when left as is.
+		var inner net.Error
+		if errors.As(t.Err, &inner) {
+			if _, isErrno := inner.(syscall.Errno); !isErrno {
+				return t.Op + ": " + ElideError(t.Err)
+			}
+		}
 		return t.Op + ": " + t.Err.Error()
 	default:
 		// For unknown error types, do the conservative thing and only log the
